@@ -40,6 +40,7 @@ CHECKS["C17"] = {
         {"name": "TestEnumSmall", "quick": 1, "thorough": 1, "shards": 1},
         {"name": "TestEnum3", "quick": 1, "thorough": 1, "shards": 16, "thorough_only": True},
         {"name": "TestSampled", "quick": 1500, "thorough": 12000, "shards": 8},
+        {"name": "TestRecycling", "quick": 4000, "thorough": 100000, "shards": 4},
         {"name": "TestSchedulerStress", "quick": 1, "thorough": 1, "shards": 4, "race": True},
     ],
 }
